@@ -448,11 +448,14 @@ theorem worker_minv {s : MacState} {i : Nat} {w : Worker} (t : Nat) (a : Ans) (h
         simp only
         split
         · rename_i j _
-          have h1 := updRep_minv t h
+          have h0 : MInv { s with outsel := s.outsel ++ [j] } := setField_minv h rfl rfl rfl rfl rfl rfl rfl rfl rfl rfl rfl
+          have h1 := updRep_minv t h0
           have h2 := setWorker_minv (w := w) (w' := { w with blocked := true }) h1 (by simpa using hw) rfl rfl
             (by simp [activeW, hpc]) (by simp [hasPcOK, hpc, hhas])
           have h3 := updRep_minv t h2
-          exact spawnPush_minv (w0 := { w with blocked := true }) j true h3 (by simpa using hgetU) rfl rfl (by simp [activeW, hpc])
+          have hgetJ : ((({ s with outsel := s.outsel ++ [j] } : MacState).updRep t).setWorker i { w with blocked := true }).workers[i]? =
+              some { w with blocked := true } := get_set_self (w := w) (by simpa using hw) _
+          exact spawnPush_minv (w0 := { w with blocked := true }) j true h3 (by simpa using hgetJ) rfl rfl (by simp [activeW, hpc])
         · exact finish_minv (w0 := w) (w := w) h hw hhas rfl hact (by simp [hpc]) _
             rfl rfl rfl rfl rfl rfl rfl rfl (Or.inr ⟨rfl, rfl, rfl, by simpa using hblk⟩)
     · -- index policies
